@@ -281,6 +281,14 @@ func genSpec(rng *rand.Rand) runSpec {
 	if s.Shape == 2 || s.Shape == 3 {
 		s.Roots[0] = 0
 	}
+	if rng.Intn(25) == 0 {
+		// nothing is ever added: Do must return at once, for every n (the zero Work is ready to use)
+		s.Roots = nil
+		if s.Shape == 5 {
+			s.Shape = 0
+		}
+		return s
+	}
 	if s.Shape == 5 {
 		s.Roots = []int{0}
 		if rng.Intn(3) == 0 {
@@ -339,7 +347,7 @@ func main() {
 		return
 	}
 	vlib.Main("C09", "exploration", 15*time.Minute, func(r *vlib.Run) {
-		r.Rule("runs of Work.Do over deterministic item graphs (1-200 items; shapes: random fan-out with duplicates/self/back edges, chain, wide fan with back-edges, binary tree with duplicate adds, bursts, rendezvous fan: one call adds min(n,items)-1 items back to back and all these calls wait for each other, so a lost wake-up is a deadlock), 1-5 roots added before Do (with duplicates), n in {1,2,3,4,8,64}; f perturbs itself (Gosched / spin / sleep) at entry, between Adds and at exit; each batch runs in a child process, once in a non-race build (the runtime's deadlock detector is the termination oracle) and once in a race build (watchdog + goroutine-dump classification), GOMAXPROCS in {1,2,4,16}. Distinct non-trivial = distinct item start-order signatures observed.")
+		r.Rule("runs of Work.Do over deterministic item graphs (1-200 items; shapes: random fan-out with duplicates/self/back edges, chain, wide fan with back-edges, binary tree with duplicate adds, bursts, rendezvous fan: one call adds min(n,items)-1 items back to back and all these calls wait for each other, so a lost wake-up is a deadlock), 0-5 roots added before Do (with duplicates; one run in 25 adds nothing at all), n in {1,2,3,4,8,64}; f perturbs itself (Gosched / spin / sleep) at entry, between Adds and at exit; each batch runs in a child process, once in a non-race build (the runtime's deadlock detector is the termination oracle) and once in a race build (watchdog + goroutine-dump classification), GOMAXPROCS in {1,2,4,16}. Distinct non-trivial = distinct item start-order signatures observed.")
 		r.Assume("interleavings are sampled, not enumerated (the statement's quantifier asks for a controlled scheduler, which is a different technique): a bug that needs one specific rare order can be missed")
 		base := vlib.Scratch()
 		build := os.Getenv("VERIF_BUILD")
